@@ -213,6 +213,7 @@ interior_node::delete_of(Token token, tree_instance* ti, base_node* const child)
                 }
                 version_unlock();
                 auto* tinfo = reinterpret_cast<thread_info*>(token); // NOLINT
+                YAKUSHIMA_VERIF_POINT(RETIRE_NODE, this);
                 tinfo->get_gc_info().push_node_container(
                         std::tuple{tinfo->get_begin_epoch(), this});
             } else {          // n_key > 1
